@@ -83,6 +83,8 @@ pub trait Target {
     /// canonical observation; Err(text) when two accessors of the same data disagree
     fn observe(&self, rng: &CountRng) -> Result<String, String>;
     fn n_orders(&self, a: usize) -> usize;
+    /// (resting bid volume, resting ask volume) of asset `a`, summed over its Active orders
+    fn resting(&self, a: usize) -> (u64, u64);
     fn vol_of(&self, a: usize, id: usize) -> u32;
     fn status_of(&self, a: usize, id: usize) -> u8;
 }
@@ -93,6 +95,7 @@ impl<const L: usize> Target for TEnv<L> {
     fn kind(&self) -> u8 { 0 }
     fn assets(&self) -> usize { 1 }
     fn n_orders(&self, _a: usize) -> usize { self.0.get_orders().len() }
+    fn resting(&self, _a: usize) -> (u64, u64) { let mut r = (0u64, 0u64); for o in self.0.get_orders() { if u8::from(o.status) == 1 { if bool::from(o.side) { r.0 += o.vol as u64 } else { r.1 += o.vol as u64 } } } r }
     fn vol_of(&self, _a: usize, id: usize) -> u32 { self.0.order(id).vol }
     fn status_of(&self, _a: usize, id: usize) -> u8 { self.0.order_status(id).into() }
     fn apply(&mut self, op: &EOp, rng: &mut CountRng) -> Outcome {
@@ -153,6 +156,7 @@ impl<const A: usize, const L: usize> Target for TMEnv<A, L> {
     fn kind(&self) -> u8 { 1 }
     fn assets(&self) -> usize { A }
     fn n_orders(&self, a: usize) -> usize { self.0.get_orders(a).len() }
+    fn resting(&self, a: usize) -> (u64, u64) { let mut r = (0u64, 0u64); for o in self.0.get_orders(a) { if u8::from(o.status) == 1 { if bool::from(o.side) { r.0 += o.vol as u64 } else { r.1 += o.vol as u64 } } } r }
     fn vol_of(&self, a: usize, id: usize) -> u32 { self.0.order((a, id)).vol }
     fn status_of(&self, a: usize, id: usize) -> u8 { self.0.order_status((a, id)).into() }
     fn apply(&mut self, op: &EOp, rng: &mut CountRng) -> Outcome {
@@ -236,6 +240,7 @@ impl<const A: usize, const L: usize> Target for TMarket<A, L> {
     fn kind(&self) -> u8 { 2 }
     fn assets(&self) -> usize { A }
     fn n_orders(&self, a: usize) -> usize { self.0.get_orders(a).len() }
+    fn resting(&self, a: usize) -> (u64, u64) { let mut r = (0u64, 0u64); for o in self.0.get_orders(a) { if u8::from(o.status) == 1 { if bool::from(o.side) { r.0 += o.vol as u64 } else { r.1 += o.vol as u64 } } } r }
     fn vol_of(&self, a: usize, id: usize) -> u32 { self.0.order((a, id)).vol }
     fn status_of(&self, a: usize, id: usize) -> u8 { self.0.order((a, id)).status.into() }
     fn apply(&mut self, op: &EOp, _rng: &mut CountRng) -> Outcome {
@@ -385,6 +390,21 @@ pub fn env_script<W: Write>(w: &mut W, st: &mut EStats, id: u64, t: &mut dyn Tar
         }
         if fam.toggles && g.chance(1, 6) { let o = if g.chance(1, 2) { EOp::Disable } else { EOp::Enable }; run.op(t, rng, &o); }
         run.op(t, rng, &EOp::Step);
+    }
+    // drain probe: with trading on, one market order per side and asset for the whole resting opposite volume, each
+    // in a step of its own: the trade records spell out the queue order the environment's books ended with
+    if !run.dead {
+        run.op(t, rng, &EOp::Enable);
+        for a in 0..a_n {
+            for bid in [false, true] {
+                if run.dead { break; }
+                let (bv, av) = t.resting(a);
+                let v = if bid { av } else { bv };
+                if v == 0 || v > u32::MAX as u64 { continue; }
+                run.op(t, rng, &EOp::Place { a, bid, vol: v as u32, trader: 99, price: None });
+                run.op(t, rng, &EOp::Step);
+            }
+        }
     }
     run.end(t);
 }
